@@ -5,6 +5,7 @@
 //     like int64(x) dropped, max/min builtins) followed by the `if batchCap <op> <expr> { batchCap = <expr> }`
 //     adjustments up to the first other use of the variable; the variable is whatever is passed as the size of
 //     the batch semaphore (first argument of the newSema call stored in the semBatch field).
+//
 // Usage: go run main.go <repo-root>   (prints the Coq file on stdout; exit 1 with a message when the source has a
 // shape this translator does not read)
 package main
